@@ -342,6 +342,15 @@ func Harness_C16(n int) {
 		// terminating grammar: an unexhausted budget gives the unbounded result
 		var st0 Stats
 		o0 := runReal(in, Memoize(memo), Statistics(&st0, "no match"))
+		if !memo && !symLeftRecC16 {
+			// the budget counts expressions: the counter of the unbounded run is the number of expression
+			// evaluations of the reference (memo hits and left-recursive growth are outside this clause)
+			r := ref.Run(refG, symEntry, in, refConfig())
+			if !r.Panicked {
+				symDebug("real", st0.ExprCnt, "ref", r.Evals)
+				symAssert(st0.ExprCnt == uint64(r.Evals), "C16: the expression counter differs from the number of expressions evaluated")
+			}
+		}
 		if !hit {
 			symAssert(symEqual(o.v, o0.v), "C16: value differs from the unbounded parse")
 			symAssert(sameStrings(errStrings(o.err), errStrings(o0.err)), "C16: errors differ from the unbounded parse")
@@ -358,6 +367,7 @@ func Harness_C16(n int) {
 ''' % (("symAssume(budget <= %d) // non-terminating grammar: a huge budget is a run of 2^31 and more iterations, not a hang" % int(g.get("budget_max", 12))) if g.get("nonterminating")
        else "symAssume(symOr(budget <= %d, budget >= 1<<31))" % int(g.get("budget_max", 24)),
        "true" if not g.get("nonterminating") else "false"))
+        s.append("const symLeftRecC16 = %s\n" % ("true" if g.get("needs_lr") else "false"))
     if "C08" in props:
         s.append('''
 // C08: left-recursive rules parse as the left-associative iteration they denote.
